@@ -1,5 +1,6 @@
 (* C04  Definite runtime-error findings are true positives -- the part decided by proof. *)
 From CV Require Import Base.Bytes Sev.Defs Sev.Proofs.
+Require Import ZArith.
 
 (* a checker reports severity error only for a value that is neither conditional nor a default
    argument, and (nullPointer, invalidFunctionArg) only for a Known value *)
@@ -14,6 +15,18 @@ Example C04_ex_error : severity_of CZeroDiv (mkS false false) (mkV VPossible fal
 Proof. reflexivity. Qed.
 Example C04_ex_null_possible : severity_of CNullPointer (mkS true false) (mkV VPossible false false) false = Some SWarning.
 Proof. reflexivity. Qed.
+
+(* shiftTooManyBits: the count is compared with the width of the PROMOTED left operand, for << >> <<= >>= alike *)
+Theorem C04_shift_too_many_is_promoted_width cb sb ib lb llb b count :
+  (cb <= ib)%Z -> (sb <= ib)%Z -> (1 <= ib)%Z ->
+  shift_too_many ib lb llb b count = true ->
+  (shift_lhsbits ib lb llb b <= count)%Z /\
+  (own_bits cb sb ib lb llb b <= shift_lhsbits ib lb llb b)%Z /\
+  (match b with ILong | ILLong => True | _ => shift_lhsbits ib lb llb b = ib end).
+Proof. exact (shift_too_many_is_promoted_width cb sb ib lb llb b count). Qed.
+Print Assumptions C04_shift_too_many_is_promoted_width.
+Example C04_ex_shift : shift_too_many 32 64 64 IChar 8 = false /\ shift_too_many 32 64 64 IChar 32 = true.
+Proof. split; reflexivity. Qed.
 
 (* the straight-line leak machine (CheckLeakAutoVar::checkScope's VarInfo on bodies made of
    p = malloc / free(p) / p = q / p = 0 / *p = 1 / return), for statement lists of any length,
